@@ -5,6 +5,7 @@ fn main() {
     quiet_panics();
     match a.cmd.as_str() {
         "toa" => vharness::modrec::toa(&a),
+        "ldro" => vharness::modrec::ldro(&a),
         other => {
             eprintln!("unknown command {other}");
             std::process::exit(2);
